@@ -33,7 +33,7 @@ class Res(wiring.Component):
 def _name():
     part = st.sampled_from(PARTS)
     return st.one_of(st.lists(part, min_size=1, max_size=1), st.lists(part, min_size=1, max_size=3),
-                     st.lists(part, min_size=2, max_size=3))
+                     st.lists(part, min_size=2, max_size=3), st.lists(part, min_size=3, max_size=6))
 
 
 def _bad_name():
